@@ -69,6 +69,149 @@ theorem viewSpecOK_sound (H : Hier) (c : Name) (out : List Name) (h : viewSpecOK
         exact ⟨p, hp, pb, hpbeq, by simpa [List.contains_iff_mem] using hpb⟩
       · simp at hpb
 
+/-! ## The model of `region_view_iterator` itself (all hierarchies) -/
+
+/-- Invariant of the FIFO loop: the emitted names are exactly the seen names that are members
+    of the level, each once; and every view-successor of an emitted item is seen or queued. -/
+structure ViewInv (H : Hier) (c : Name) (queue seen out : List Name) : Prop where
+  nodup : out.Nodup
+  outSeen : ∀ x ∈ out, x ∈ seen ∧ (H.getIn? c x).isSome
+  seenOut : ∀ x ∈ seen, (H.getIn? c x).isSome → x ∈ out
+  closed : ∀ x ∈ out, ∀ b, H.getIn? c x = some b → ∀ ts, viewTargets H b = .ok ts →
+    ∀ t ∈ ts, t ∈ seen ∨ t ∈ queue
+
+theorem viewGo_inv (H : Hier) (c : Name) :
+    ∀ (g : Nat) (queue seen out result : List Name), ViewInv H c queue seen out →
+      viewGo H c g queue seen out = .ok result →
+      ∃ seen', ViewInv H c [] seen' result ∧ (∀ x ∈ seen, x ∈ seen') ∧ (∀ x ∈ queue, x ∈ seen') := by
+  intro g
+  induction g with
+  | zero => intro q s o r _ h; simp [viewGo] at h
+  | succ g ih =>
+    intro queue seen out result hinv h
+    cases queue with
+    | nil =>
+      simp only [viewGo, Except.ok.injEq] at h
+      subst h
+      exact ⟨seen, hinv, fun x hx => hx, by simp⟩
+    | cons name rest =>
+      simp only [viewGo] at h
+      split at h
+      · next hs =>
+        have hsm : name ∈ seen := by simpa [mem, List.contains_iff_mem] using hs
+        obtain ⟨s', h1, h2, h3⟩ := ih rest seen out result
+          ⟨hinv.nodup, hinv.outSeen, hinv.seenOut, by
+            intro x hx b hb ts hts t ht
+            rcases hinv.closed x hx b hb ts hts t ht with e | e
+            · exact Or.inl e
+            · rcases List.mem_cons.mp e with e2 | e2
+              · exact Or.inl (e2 ▸ hsm)
+              · exact Or.inr e2⟩ h
+        refine ⟨s', h1, h2, ?_⟩
+        intro x hx
+        rcases List.mem_cons.mp hx with e | e
+        · exact e ▸ h2 name hsm
+        · exact h3 x e
+      · next hs =>
+        have hns : name ∉ seen := by simpa [mem, List.contains_iff_mem] using hs
+        split at h
+        · next hnone =>
+          -- not a member of this level: skipped, only marked as seen
+          obtain ⟨s', h1, h2, h3⟩ := ih rest (name :: seen) out result
+            ⟨hinv.nodup,
+             fun x hx => ⟨by simp [(hinv.outSeen x hx).1], (hinv.outSeen x hx).2⟩,
+             by
+               intro x hx hmem
+               rcases List.mem_cons.mp hx with e | e
+               · subst e; simp [hnone] at hmem
+               · exact hinv.seenOut x e hmem,
+             by
+               intro x hx b hb ts hts t ht
+               rcases hinv.closed x hx b hb ts hts t ht with e | e
+               · exact Or.inl (by simp [e])
+               · rcases List.mem_cons.mp e with e2 | e2
+                 · exact Or.inl (by simp [e2])
+                 · exact Or.inr e2⟩ h
+          exact ⟨s', h1, fun x hx => h2 x (by simp [hx]), by
+            intro x hx
+            rcases List.mem_cons.mp hx with e | e
+            · exact h2 x (by simp [e])
+            · exact h3 x e⟩
+        · next b hb =>
+          split at h
+          · simp at h
+          · next ts hts =>
+            have hno : name ∉ out := fun hm => hns (hinv.outSeen name hm).1
+            obtain ⟨s', h1, h2, h3⟩ := ih (rest ++ ts) (name :: seen) (out ++ [name]) result
+              ⟨by
+                 rw [List.nodup_append]
+                 exact ⟨hinv.nodup, by simp, by
+                   intro a ha b' hb' e
+                   simp only [List.mem_singleton] at hb'
+                   exact hno (hb' ▸ e ▸ ha)⟩,
+               by
+                 intro x hx
+                 rcases List.mem_append.mp hx with e | e
+                 · exact ⟨by simp [(hinv.outSeen x e).1], (hinv.outSeen x e).2⟩
+                 · simp only [List.mem_singleton] at e
+                   subst e
+                   exact ⟨by simp, by simp [hb]⟩,
+               by
+                 intro x hx hmem
+                 rcases List.mem_cons.mp hx with e | e
+                 · subst e; simp
+                 · exact List.mem_append.mpr (Or.inl (hinv.seenOut x e hmem)),
+               by
+                 intro x hx b' hb' ts' hts' t ht
+                 rcases List.mem_append.mp hx with e | e
+                 · rcases hinv.closed x e b' hb' ts' hts' t ht with e2 | e2
+                   · exact Or.inl (by simp [e2])
+                   · rcases List.mem_cons.mp e2 with e3 | e3
+                     · exact Or.inl (by simp [e3])
+                     · exact Or.inr (List.mem_append.mpr (Or.inl e3))
+                 · simp only [List.mem_singleton] at e
+                   subst e
+                   rw [hb] at hb'
+                   simp only [Option.some.injEq] at hb'
+                   subst hb'
+                   rw [hts] at hts'
+                   simp only [Except.ok.injEq] at hts'
+                   subst hts'
+                   exact Or.inr (List.mem_append.mpr (Or.inr ht))⟩ h
+            exact ⟨s', h1, fun x hx => h2 x (by simp [hx]), by
+              intro x hx
+              rcases List.mem_cons.mp hx with e | e
+              · exact h2 x (by simp [e])
+              · exact h3 x (List.mem_append.mpr (Or.inl e))⟩
+
+/-- **The concealed view, a-priori, for every hierarchy.** Whenever the model of
+    `region_view_iterator` answers, the answer has no repetition, consists of members of the
+    level only, contains the head if it is a member, and is closed under the view's successor
+    relation inside the level — hence contains every member reachable from the head through
+    regions-as-single-nodes. (Under C04/C03 every member is so reachable; that is what the
+    per-instance check `viewSpecOK` confirms on real outputs.) -/
+theorem viewIter_closed (H : Hier) (c : Name) (out : List Name) (h : viewIter H c = .ok out) :
+    out.Nodup ∧ (∀ x ∈ out, (H.getIn? c x).isSome) ∧
+    (∀ hd, findHead H c = .ok hd → (H.getIn? c hd).isSome → hd ∈ out) ∧
+    ∀ x ∈ out, ∀ b, H.getIn? c x = some b → ∀ ts, viewTargets H b = .ok ts →
+      ∀ t ∈ ts, (H.getIn? c t).isSome → t ∈ out := by
+  unfold viewIter at h
+  cases hh : findHead H c with
+  | error e => simp [hh, bind, Except.bind] at h
+  | ok hd =>
+    simp only [hh, bind, Except.bind] at h
+    obtain ⟨s', hinv, _, hq⟩ := viewGo_inv H c _ [hd] [] [] out
+      ⟨by simp, by simp, by simp, by simp⟩ h
+    refine ⟨hinv.nodup, fun x hx => (hinv.outSeen x hx).2, ?_, ?_⟩
+    · intro hd' hhd' hmem
+      simp only [Except.ok.injEq] at hhd'
+      subst hhd'
+      exact hinv.seenOut hd (hq hd (by simp)) hmem
+    · intro x hx b hb ts hts t ht hmem
+      rcases hinv.closed x hx b hb ts hts t ht with e | e
+      · exact hinv.seenOut t e hmem
+      · simp at e
+
 /-! Non-vacuity, and the pinned-tree defect as a rejected enumeration: in `staleH` (finding O3,
 before commit c78baed) the view of `branch_region_3`'s level continued at a stale name and never
 yielded `tail_region_1`. -/
